@@ -68,6 +68,12 @@ func init() {
 			return st.Probes["blocks-with-txs"] > 0 && st.Probes["fresh-replay-compared"] > 0
 		})
 
+	Engines["C06"] = chainEngine("C06", &sim.ChainCfg{Crash: true, NoStepOrcl: true},
+		func(tier string) *sim.GenParams {
+			return &sim.GenParams{Mix: sim.OpMix{"tx": 6, "kvtx": 4, "mine": 5, "deliver": 5, "walk": 2, "truncate": 1, "respend": 1}, MaxSteps: steps(tier, 10, 14), MaxNodes: 2, Windows: []int{0, 2}, MapOrders: true, SmallCache: true}
+		}, "", func(st *sim.RunStats) bool { return st.Probes["crash-image-synced"] > 3 })
+	Engines["C06"].Level = "fault_enumeration"
+
 	Engines["C17"] = chainEngine("C17", &sim.ChainCfg{Irr: true},
 		func(tier string) *sim.GenParams {
 			return &sim.GenParams{Mix: sim.OpMix{"tx": 3, "mine": 8, "deliver": 6, "walk": 7, "reopen": 2, "truncate": 1}, MaxSteps: steps(tier, 28, 46), MaxNodes: 3, Windows: []int{0, 1, 2, 3, 5}, MapOrders: true, SmallCache: true}
